@@ -85,6 +85,47 @@ def run_case(c):
     return rec
 
 
+def _plateau(L, ramp, level=0.0, step=10.0):
+    """L samples resting at one level, then `ramp` samples far apart from everything."""
+    return np.concatenate([np.full(L, level), level + step * np.arange(1, ramp + 1)])
+
+
+def run_long(c):
+    """Lines longer than 127 / 255 points: (cross) recurrence plots of series with a long plateau."""
+    from pyunicorn.timeseries import RecurrencePlot, CrossRecurrencePlot
+    rec = dict(c)
+    L = c["L"]
+    o = {"exc": "", "lexc": ""}
+    try:
+        if c["kind"] == "rp":
+            rp = RecurrencePlot(_plateau(L, 12), threshold=0.5, metric="supremum", silence_level=3)
+            o["R"] = enc.ints(rp.recurrence_matrix())
+            o["diag"], o["vert"] = enc.ints(rp.diagline_dist()), enc.ints(rp.vertline_dist())
+            o["white"] = enc.ints(rp.white_vertline_dist())
+            o["maxd"], o["maxv"], o["maxw"] = (int(rp.max_diaglength()), int(rp.max_vertlength()),
+                                               int(rp.max_white_vertlength()))
+        else:
+            # the two records rest at the same level for L and L - 9 samples
+            crp = CrossRecurrencePlot(_plateau(L, 6), _plateau(L - 9, 8, step=-7.0), threshold=0.5,
+                                      metric="supremum", silence_level=3)
+            o["R"] = enc.ints(crp.recurrence_matrix())
+            o["diag"], o["vert"], o["white"] = [], [], []
+            try:
+                o["diag"], o["vert"] = enc.ints(crp.diagline_dist()), enc.ints(crp.vertline_dist())
+                o["white"] = enc.ints(crp.white_vertline_dist())
+            except Exception as ex:
+                o["lexc"] = type(ex).__name__
+    except Exception as ex:
+        o["exc"] = type(ex).__name__
+    rec["obs"] = o
+    return rec
+
+
+def long_cases(tier):
+    Ls = (20, 140) if tier == "quick" else (20, 127, 128, 140, 256, 300)
+    return [{"case": "%s_long%d" % (k, L), "blk": "long", "kind": k, "L": L} for k in ("rp", "crp") for L in Ls]
+
+
 def random_cases(seed, count, nmax):
     """Seeded dyadic series (values k/16): thresholds and distances are exact in float32."""
     rng = random.Random(seed)
@@ -138,9 +179,16 @@ def main(ctx):
     ctx.extra["scope"] = open(os.path.join(os.path.dirname(__file__), "..", "spec", cfg + ".cfg")).read().split()
     recs = ctx.run_cases("props.c08.run_case", cases)
     ctx.validate("Val_C08", "Val_C08", recs, nontrivial=_nontrivial)
+    # lines beyond 127 / 255 points (plateaus), on recurrence plots and - where offered - cross recurrence plots
+    lrecs = ctx.run_cases("props.c08.run_long", long_cases(ctx.tier))
+    ctx.validate("Val_C08long", "Val_C08long", lrecs, stage="Val_C08long", nontrivial=lambda r: True)
 
 
 def replay(ctx, rep):
+    if rep["record"].get("blk") == "long":
+        lrecs = ctx.run_cases("props.c08.run_long", [{k: v for k, v in rep["record"].items() if k != "obs"}], jobs=1)
+        ctx.validate("Val_C08long", "Val_C08long", lrecs, stage="Val_C08long", nontrivial=lambda r: True)
+        return
     rec = rep["record"]
     case = {k: v for k, v in rec.items() if k not in ("mat", "seq", "hasseq")}
     recs = ctx.run_cases("props.c08.run_case", [case], jobs=1)
